@@ -152,7 +152,16 @@ func (ssc *defaultStatefulSetControl) ListRevisions(set *apps.StatefulSet) ([]*k
 		return nil, err
 	}
 	res := []*kubeapps.ControllerRevision{}
-	for _, item := range append(revisions.Items, revisinsToUpgrade.Items...) {
+	for _, item := range revisions.Items {
+		local := item
+		// a revision selected by labels belongs to the set only if the set controls it or nobody does
+		// (then it may be adopted); revisions of other owners with an overlapping selector are not ours
+		if ref := metav1.GetControllerOfNoCopy(&local); ref != nil && ref.UID != set.UID {
+			continue
+		}
+		res = append(res, &local)
+	}
+	for _, item := range revisinsToUpgrade.Items {
 		local := item
 		res = append(res, &local)
 	}
